@@ -658,6 +658,7 @@ func (d *driver) run(replay string) int {
 				continue
 			}
 			undecided = append(undecided, fmt.Sprintf("%s: harness could not judge a case: %s\n  case: %s\n  %s", f.shard, f.Outcome.Undecided, tail(string(f.Case), 1500), strings.Join(f.Outcome.History, "\n  ")))
+			d.saveInconclusive(f)
 			continue
 		}
 		d.logf("candidate from %s: [%s] %s", f.shard, f.Outcome.Clause, firstLine(f.Outcome.Violation))
